@@ -6,8 +6,44 @@ from .. import refmodel as rm
 from .. import spec as sp
 
 
+_SHIPPED = None
+
+
+def shipped_specs():
+    """The 20 instance files shipped under <repo>/Evaluations, read by the strict parser."""
+    global _SHIPPED
+    if _SHIPPED is None:
+        import glob
+        import os
+        from .. import loader, outparse
+        _SHIPPED = []
+        for setname, na in (('hr', 2), ('spa', 3), ('spa_no_lq', 3), ('spa_onesided', 3)):
+            for p in sorted(glob.glob(os.path.join(loader.REPO, 'Evaluations', setname, 'instances', '*.txt'))):
+                try:
+                    spec, _ = outparse.parse_instance_file(open(p).read(), na)
+                    spec['shape'] = 'shipped'
+                    spec['two_sided_possible'] = any(spec['lec'])
+                    _SHIPPED.append(spec)
+                except Exception:
+                    pass
+    return _SHIPPED
+
+
 def build_case(cs, profile):
     rng = random.Random(cs)
+    if profile.get('shipped_rate') and rng.random() < profile['shipped_rate'] and shipped_specs():
+        spec = dict(rng.choice(shipped_specs()))
+        okw = dict(profile.get('opts', {}))
+        ncrit_choices = okw.pop('ncrit_choices', None)
+        if ncrit_choices:
+            okw['ncrit'] = rng.choice(ncrit_choices)
+        if not spec['two_sided_possible']:
+            if okw.get('twopl') or okw.get('stab'):
+                spec = dict(rng.choice([s for s in shipped_specs() if s['two_sided_possible']]))
+            else:
+                okw['twopl'] = False
+        opts = sp.make_opts(rng, spec, **okw)
+        return rng, spec, opts
     kw = dict(profile.get('spec', {}))
     shapes = kw.pop('shapes', None)
     if shapes:
@@ -28,6 +64,8 @@ def build_case(cs, profile):
 def lp_case(cs, ctx, profile, probe_rate=0.0, probe_cap=64):
     rng, spec, opts = build_case(cs, profile)
     ref = en.reference(spec, opts)
+    if spec.get('shape') == 'shipped':
+        ctx.cnt('shipped_evaluation_instances')
     ex = en.run_lp(spec, opts, ctx.workdir, rng, inject=profile.get('inject', True))
     do_probe = ref['enumerable'] and rng.random() < probe_rate
     cnt = {}
